@@ -2,12 +2,12 @@
 EXTENDS Integers, Sequences, TLC, Json, IOUtils
 CONSTANTS Vouchers, HookReturnsAck
 Trace == ndJsonDeserialize(IOEnv.TRACE_FILE)
-VARIABLES l, enabled, vbal, esc, sup, tok, registered, pairon, last
+VARIABLES l, enabled, vbal, esc, sup, tok, registered, pairon, ext, xreg, mx, last
 AmtClasses == {}
 RecvClasses == {}
 INSTANCE ICS20
 ln(k) == Trace[k]
-TInit == l = 0 /\ enabled = TRUE /\ vbal = <<>> /\ esc = <<>> /\ sup = <<>> /\ tok = <<>> /\ registered = <<>> /\ pairon = <<>> /\ last = [act |-> "None", res |-> "ok"]
+TInit == l = 0 /\ enabled = TRUE /\ vbal = <<>> /\ esc = <<>> /\ sup = <<>> /\ tok = <<>> /\ registered = <<>> /\ pairon = <<>> /\ ext = <<>> /\ xreg = FALSE /\ mx = 0 /\ last = [act |-> "None", res |-> "ok"]
 Report(k, name, holds) == holds \/ PrintT(<<"VIOL", k, name>>)
 IsStep(k) == ln(k).ev # "Reset"
 A(k) == ln(k).args
@@ -21,9 +21,11 @@ Judge(k) ==
   (* conversion completes in full or leaves the received vouchers with the receiver *)
   /\ Report(k, "C16.ConversionAtomic", (ln(k).ev = "Recv" /\ ln(k).wrapped_success) =>
         \/ (vbal'[D(k)] = vbal[D(k)] + N(k) /\ tok'[D(k)] = tok[D(k)] /\ esc'[D(k)] = esc[D(k)])
-        \/ (vbal'[D(k)] = vbal[D(k)] /\ tok'[D(k)] = tok[D(k)] + N(k) /\ esc'[D(k)] = esc[D(k)] + N(k)))
+        \/ (vbal'[D(k)] = vbal[D(k)] /\ tok'[D(k)] = tok[D(k)] + N(k) /\ esc'[D(k)] = esc[D(k)] + N(k))
+        (* pair of an external token: the vouchers are burnt, the tokens come out of the module's holdings *)
+        \/ (ext[D(k)] /\ vbal'[D(k)] = vbal[D(k)] /\ tok'[D(k)] = tok[D(k)] + N(k) /\ esc'[D(k)] = esc[D(k)] /\ sup'[D(k)] = sup[D(k)] /\ mx' = mx - N(k)))
   /\ Report(k, "C16.FailedTransferNoEffect", (ln(k).ev = "Recv" /\ ~ln(k).wrapped_success) => UNCHANGED <<vbal, esc, sup, tok>>)
-  /\ Report(k, "C16.OtherDenomsUntouched", ln(k).ev = "Recv" => \A d \in Vouchers \ {D(k)} : vbal'[d] = vbal[d] /\ tok'[d] = tok[d] /\ esc'[d] = esc[d])
+  /\ Report(k, "C16.OtherDenomsUntouched", ln(k).ev = "Recv" => \A d \in Vouchers \ {D(k)} : vbal'[d] = vbal[d] /\ esc'[d] = esc[d] /\ (tok'[d] = tok[d] \/ (ext'[d] /\ ext'[D(k)])))   \* vouchers of one external pair share its token
 C_Step(k) ==
   CASE ln(k).ev = "Recv" -> /\ RecvEff(D(k), A(k).amt, A(k).recv)
                             /\ ln(k).wrapped_success = TransferOK(A(k).amt, A(k).recv)
@@ -31,13 +33,16 @@ C_Step(k) ==
     [] ln(k).ev = "Register" -> RegisterEff(D(k)) /\ (ln(k).res = "ok") = RegisterOK(D(k))
     [] ln(k).ev = "Toggle" -> ToggleEff(D(k)) /\ (ln(k).res = "ok") = ToggleOK(D(k))
     [] ln(k).ev = "Param" -> ParamEff(A(k).on)
+    [] ln(k).ev = "RegisterExt" -> RegisterExtEff /\ (ln(k).res = "ok") = RegisterExtOK
+    [] ln(k).ev = "AddExt" -> AddExtEff(D(k)) /\ (ln(k).res = "ok") = AddExtOK(D(k))
+    [] ln(k).ev = "Fund" -> FundEff(A(k).n)
     [] OTHER -> FALSE
 Conform(k) == IsStep(k) => (C_Step(k) \/ PrintT(<<"DRIFT", k, ln(k).ev>>))
 F(k, f) == [d \in Vouchers |-> ln(k).st[d][f]]
 TNext == LET k == l + 1 IN
   /\ l < Len(Trace) /\ l' = k
   /\ enabled' = ln(k).st.enabled /\ vbal' = F(k, "vbal") /\ esc' = F(k, "esc") /\ sup' = F(k, "sup") /\ tok' = F(k, "tok")
-  /\ registered' = F(k, "registered") /\ pairon' = F(k, "pairon")
+  /\ registered' = F(k, "registered") /\ pairon' = F(k, "pairon") /\ ext' = F(k, "ext") /\ xreg' = ln(k).st.xreg /\ mx' = ln(k).st.mx
   /\ last' = [act |-> ln(k).ev, res |-> ln(k).res]
   /\ Judge(k) /\ Conform(k)
 TSpec == TInit /\ [][TNext]_<<l, vars>>
